@@ -84,6 +84,7 @@ Definition FNum (tbl : list oracle_entry) : Num := {|
   neg := PrimFloat.opp;
   nabs := PrimFloat.abs;
   div := f_div;
+  same := fbits_eqb;
   eqb := PrimFloat.eqb;
   ltb := PrimFloat.ltb;
   leb := PrimFloat.leb;
